@@ -325,7 +325,7 @@ pub fn parse_proj(definition: &str) -> Result<String, Error> {
                     }
 
                     // Remove all cases of 'inv' from the global arguments
-                    let pipeline_globals_elements: Vec<String> = elements
+                    let mut pipeline_globals_elements: Vec<String> = elements
                         .join(" ")
                         .trim()
                         .to_string()
@@ -333,6 +333,8 @@ pub fn parse_proj(definition: &str) -> Result<String, Error> {
                         .filter(|x| x.trim() != "inv")
                         .map(|x| x.trim().to_string())
                         .collect();
+                    // Pipeline level 'a', 'rf' and 'k' are translated like those of the steps
+                    tidy_proj(&mut pipeline_globals_elements)?;
                     pipeline_globals = pipeline_globals_elements.join(" ").trim().to_string();
                     elements.clear();
                 }
